@@ -80,6 +80,11 @@ def check_index(c):
         space.mul_(2).sub_(1)
         again = state.generate_hilbert_space(n)
         require(torch.equal(again, want), "space-shared-between-calls", f"generate_hilbert_space({n}) returned a tensor affected by an in-place change a caller made to an earlier result")
+        again.mul_(2).sub_(1)        # ... the caller also edits the second result in place (e.g. as overwritten chain states)
+        third = state.generate_hilbert_space(n)
+        require(torch.equal(third, want), "space-shared-between-calls", f"the third generate_hilbert_space({n}) is affected by an in-place change made to the second result")
+        third.add_(5)
+        require(torch.equal(state.generate_hilbert_space(n), want), "space-shared-between-calls", f"the fourth generate_hilbert_space({n}) is affected by an in-place change made to the third result")
         from qucumber.nn_states import PositiveWaveFunction as _P
         require(torch.equal(_P(2, 1, gpu=False).generate_hilbert_space(n), want), "space-shared-between-calls", "another model's generate_hilbert_space is affected by a caller's in-place change")
     if n == 2:
@@ -167,6 +172,15 @@ def check_positions(c):
 
 
 # ------------------------------------------------------------------ files
+def tiny(vals, mode):
+    """value regimes for written targets: every third entry scaled to ~1e-9 / ~1e-20 (representable in float32, must come back unchanged)"""
+    if mode == 1:
+        return [v * 1e-9 if i % 3 == 0 else v for i, v in enumerate(vals)]
+    if mode == 2:
+        return [v * 1e-20 if i % 2 == 0 else v for i, v in enumerate(vals)]
+    return vals
+
+
 @st.composite
 def files(draw, tier):
     N, n = draw(st.integers(2, 30)), draw(st.integers(2, 6))
@@ -184,8 +198,8 @@ def files(draw, tier):
     D = draw(st.sampled_from([2, 2, 4, 8, 16]))     # target dimension (1..4 qubits); loading does not relate it to the samples' n
     fl = st.floats(-2, 2, allow_nan=False, width=64)
     return {"N": N, "n": n, "samples": draw(st.lists(st.integers(0, 2 ** n - 1), min_size=N, max_size=N)), "bases": bases,
-            "psi": {"re": draw(st.lists(fl, min_size=D, max_size=D)), "im": draw(st.lists(fl, min_size=D, max_size=D))},
-            "mat": {"re": draw(st.lists(fl, min_size=D * D, max_size=D * D)), "im": draw(st.lists(fl, min_size=D * D, max_size=D * D))},
+            "psi": {"re": tiny(draw(st.lists(fl, min_size=D, max_size=D)), draw(st.integers(0, 3))), "im": tiny(draw(st.lists(fl, min_size=D, max_size=D)), draw(st.integers(0, 3)))},
+            "mat": {"re": tiny(draw(st.lists(fl, min_size=D * D, max_size=D * D)), draw(st.integers(0, 3))), "im": draw(st.lists(fl, min_size=D * D, max_size=D * D))},
             "which": draw(st.sampled_from(["psi", "dm", "dm_missing_real", "dm_missing_imag", "samples_only"])), "intfmt": draw(st.booleans())}
 
 
